@@ -456,6 +456,10 @@ func runC03more(c *Ctx) {
 		}
 	}
 
+	// ---------------------------------------------------------------- C03.10
+	c.Rule("C03.10", "each client protocol's response carries its own wire format's Content-Type prefix", 5)
+	checkContentTypeTables(c, "C03.10", "clientProtocolHandler", "addProtocolResponseHeaders", "responseMeta")
+
 	// ---------------------------------------------------------------- C03.8
 	c.Rule("C03.8", "end-in-headers client protocols announce a content compression only when the body is the (possibly compressed) message, never on an error body", 2)
 	emb := p.Iface("clientProtocolEndMustBeInHeaders")
